@@ -1,5 +1,17 @@
 """C17 - bulk clean-up, delete and rename operations hit exactly their targets."""
+import contextlib
+import io
+import json
+import os
+import shutil
+import sys
+import tempfile
+import types
+
 import canmatrix.canmatrix as cm
+import canmatrix.cli.convert
+import canmatrix.convert
+import canmatrix.formats
 
 PID = "C17"
 RULE = ("case = (matrix with 1..4 frames with unique names (some names prefixes/suffixes of others), 0..7 signals per frame with "
@@ -13,11 +25,22 @@ RULE = ("case = (matrix with 1..4 frames with unique names (some names prefixes/
         "character less or more) next to exact and absent ones; frames and signals are addressed by name or through the object "
         "(del_frame(Frame), rename_frame(Frame, ..), rename_signal(Signal, ..)); read-only lookups by these spellings (frame_by_name, "
         "glob_frames, signal_by_name, glob_signals) run before every operation; a sweep applies every such spelling of every pool "
-        "name to every name-taking operation. Non-trivial = distinct case in which at least one operation changed the matrix.")
+        "name to every name-taking operation. A third stream (colliding renames) has frames and matrices with pairs of names of which one "
+        "begins or ends with the other, in either order, and renames by prefix*, *suffix or name whose new name for one object is the present "
+        "name of another one (which matches the pattern too, or not), also as a swap of two names through a third one; a sweep does this "
+        "for every such pair of the name pools. A fourth stream reaches the operations through the converter (canmatrix.convert.convert, "
+        "one call in five through the canconvert command line): an input file with 1..3 matrices (other buses are variants of the first "
+        "with the same names, or independent), written in a lossless cluster format registered in the library's format table (15 %: as a "
+        "real KCD file with several buses, read back from the KCD output), 1..4 operations given as --renameFrame/--deleteFrame/"
+        "--renameSignal/--deleteSignal/--deleteZeroSignals/--deleteSignalAttributes/--deleteFrameAttributes/--deleteObsoleteDefines "
+        "in the converter's order; the state after the k-th operation is the output for the first k options, and every matrix of "
+        "the file is one case. Non-trivial = distinct case in which at least one operation changed the matrix.")
 PARTIAL = ["attribute values and definition bodies are opaque strings here; ENUM conversion belongs to C05"]
 ASSUMPTIONS = ["frame names unique in the matrix and signal names unique within a frame (the Spec is asserted only on such states)",
                "patterns and names are non-empty and carry at most one '*' at the beginning or the end"]
-TRUSTED = ["fnmatch.fnmatchcase (modelled by globMatch, validated in C11's 'glob' cases)"]
+TRUSTED = ["fnmatch.fnmatchcase (modelled by globMatch, validated in C11's 'glob' cases)",
+           "converter stream: the harness's own cluster format (JSON of the matrices, load = build, dump = snapshot) registered in "
+           "canmatrix.formats.supportedFormats / extensionMapping; the KCD part relies on the KCD writer and reader for names and sizes (C06)"]
 CORRESPONDENCE = "CanMatrix bulk operations == CanVerif.BMat.apply (Model/Bulk.lean)"
 
 FNAMES = ["Msg", "Msg_A", "A_Msg", "Diag_Req", "Diag_Resp", "Req", "Status", "StatusExt", "Ext", "Ext_Ext", "Msg_Msg", "gMsg", "tExt", "Msgs", "Diag_D"]   # incl. names whose rest shares characters with the pattern
@@ -147,9 +170,11 @@ def as_pattern(rng, name):
     return name[:k] + "*" if r < 0.25 else "*" + name[-k:] if r < 0.5 else name
 
 
-def gen_op_near(rng, m):
+def gen_op_near(rng, m, allow_obj=True):
     fn, sn, an = present(m)
     via = ["obj"] if rng.random() < 0.3 else []
+    if not allow_obj:
+        via = []
     k = rng.random()
     if k < 0.30:
         return ["delFrame", target(rng, fn, FNAMES, via)] + via
@@ -206,6 +231,251 @@ def sweep_near():
             yield {"op": "bulk", "c": {"m": m, "ops": [["delFrameAttrs", [v, a]], ["delSigAttrs", [v]]]}}
 
 
+# ---- renames whose new names are names that are present: "Mot*" -> "Mot1" next to Mot1_Speed, a -> b next to b, swaps through a third name ----
+def family(pool):
+    """pairs (a, b) of the pool in which b begins or ends with a"""
+    return [(a, b) for a in pool for b in pool if a != b and (b.startswith(a) or b.endswith(a))]
+
+
+SIG_FAMILY = family(SNAMES)
+FRAME_FAMILY = family(FNAMES)
+
+
+def common(a, b, rev=False):
+    """length of the common prefix (rev: suffix) of two names"""
+    if rev:
+        a, b = a[::-1], b[::-1]
+    k = 0
+    while k < min(len(a), len(b)) and a[k] == b[k]:
+        k += 1
+    return k
+
+
+def collide_op(rng, kind, a, b):
+    """a rename that gives the object called a the present name b: by prefix pattern (a = p+rest, b = q+rest: p* -> q), by suffix pattern or by name"""
+    r = rng.random()
+    if r < 0.45:
+        t = rng.randint(0, min(common(a, b, rev=True), len(a) - 1, len(b) - 1))
+        return [kind, a[:len(a) - t] + "*", b[:len(b) - t]]
+    if r < 0.9:
+        t = rng.randint(0, min(common(a, b), len(a) - 1, len(b) - 1))
+        return [kind, "*" + a[t:], b[t:]]
+    return [kind, a, b]
+
+
+def gen_matrix_family(rng):
+    """gen_matrix, with pairs of names of which one begins / ends with the other, in either order, in one or two frames and among the frame names"""
+    m = gen_matrix(rng)
+    frames = m["frames"]
+    for f in rng.sample(frames, min(len(frames), rng.randint(1, 2))):
+        a, b = rng.choice(SIG_FAMILY)
+        sigs = [s for s in f[2] if s[0] not in (a, b)][:5]
+        for n in rng.sample([a, b], 2):
+            sigs.insert(rng.randint(0, len(sigs)), [n, 0 if rng.random() < 0.1 else rng.randint(1, 16), rand_attrs(rng)])
+        f[2] = sigs
+    if len(frames) >= 2 and rng.random() < 0.6:
+        a, b = rng.choice(FRAME_FAMILY)
+        if not any(f[0] in (a, b) for f in frames):
+            i, j = rng.sample(range(len(frames)), 2)
+            frames[i][0], frames[j][0] = a, b
+    return m
+
+
+def pick_pair(rng, names, fam):
+    """two present names, mostly a pair of which one begins / ends with the other (either direction)"""
+    rel = [(a, b) for a, b in fam if a in names and b in names]
+    if rel and rng.random() < 0.75:
+        a, b = rng.choice(rel)
+        return (a, b) if rng.random() < 0.7 else (b, a)
+    return tuple(rng.sample(names, 2)) if len(names) >= 2 else None
+
+
+def gen_op_collide(rng, m):
+    """one colliding rename (or a swap of two names through a third one: three renames) for the matrix; [] if it has no two names"""
+    if rng.random() < 0.3:
+        pair, kind = pick_pair(rng, [f[0] for f in m["frames"]], FRAME_FAMILY), "renameFrame"
+    else:
+        f = rng.choice(m["frames"])
+        pair, kind = pick_pair(rng, [s[0] for s in f[2]], SIG_FAMILY), "renameSignal"
+    if pair is None:
+        return []
+    if rng.random() < 0.12:
+        return [[kind, pair[0], "tmp_"], [kind, pair[1], pair[0]], [kind, "tmp_", pair[1]]]
+    return [collide_op(rng, kind, *pair)]
+
+
+def collide_case(rng):
+    m = gen_matrix_family(rng)
+    ops = []
+    for _ in range(rng.randint(1, 2)):
+        ops += gen_op_collide(rng, m) if rng.random() < 0.85 else [gen_op(rng)]
+    return {"op": "bulk", "c": {"m": m, "ops": (ops or [gen_op(rng)])[:4]}}
+
+
+def sweep_collide():
+    """every pair of pool names of which one begins / ends with the other, in both orders within the frame (matrix), renamed by the pattern
+    that turns the shorter into the longer one and back"""
+    empty = {"ecus": [], "fd": [], "ed": [], "sd": []}
+    for a, b in SIG_FAMILY:
+        pats = ([[a + "*", b], [b + "*", a]] if b.startswith(a) else []) + ([["*" + a, b], ["*" + b, a]] if b.endswith(a) else [])
+        m = dict(empty, frames=[["F", [], [[a, 8, []], [b, 2, [["GenA", "v1"]]], ["other", 4, []]]], ["G", [], [["other", 4, []], [b, 2, []], [a, 8, []]]]])
+        for old, new in pats:
+            yield {"op": "bulk", "c": {"m": m, "ops": [["renameSignal", old, new]]}}
+        yield {"op": "bulk", "c": {"m": m, "ops": [["renameSignal", a, "tmp_"], ["renameSignal", b, a], ["renameSignal", "tmp_", b]]}}
+    for a, b in FRAME_FAMILY:
+        pats = ([[a + "*", b], [b + "*", a]] if b.startswith(a) else []) + ([["*" + a, b], ["*" + b, a]] if b.endswith(a) else [])
+        for names in ([a, b, "Other"], ["Other", b, a]):
+            m = dict(empty, frames=[[n, [], [["s", 1 + k, []]]] for k, n in enumerate(names)])
+            for old, new in pats:
+                yield {"op": "bulk", "c": {"m": m, "ops": [["renameFrame", old, new]]}}
+
+
+# ---- the same operations through the converter: canmatrix.convert.convert / canconvert on an input file with one or several matrices ----
+# The delete/rename options of the converter are the operations of this property applied to every matrix of the input file, in a fixed
+# order.  A case of this stream is judged like any other ("m" = one matrix of the file, "ops" = the operations the options stand for, in
+# the converter's order); "conv" says how the real code is reached: all matrices of the file (None marks the place of "m"), the format
+# and the entry point.  The state after the k-th operation is the output of the converter called with the options for the first k.
+STAGE = {"renameFrame": 0, "delFrame": 1, "renameSignal": 2, "delSignal": 3, "zero": 4, "delSigAttrs": 5, "delFrameAttrs": 6, "obsolete": 7}
+MEM = "c17mem"   # a lossless cluster format (JSON of the matrices of this module), registered in the library's table of formats
+
+
+def register_mem_format():
+    name = "canmatrix.formats." + MEM
+    if name not in sys.modules:
+        mod = types.ModuleType(name)
+
+        def load(f, **options):
+            return {bus: build(m) for bus, m in json.loads(f.read().decode("utf-8"))}
+
+        def dump(dbs, f, **options):
+            dbs = {"": dbs} if isinstance(dbs, cm.CanMatrix) else dbs
+            f.write(json.dumps([[bus, snapshot(dbs[bus])] for bus in dbs]).encode("utf-8"))
+            f.flush()
+
+        mod.load, mod.dump, mod.clusterImporter, mod.clusterExporter = load, dump, True, True
+        sys.modules[name] = mod
+    canmatrix.formats.supportedFormats[MEM] = ["load", "dump", "clusterImporter", "clusterExporter"]
+    canmatrix.formats.extensionMapping[MEM] = MEM
+
+
+def kcd_matrix(m):
+    """what a KCD file carries of a matrix of this module: names and signal sizes from 1 bit on"""
+    return {"frames": [[f[0], [], [[s[0], max(1, s[1]), []] for s in f[2]]] for f in m["frames"]], "ecus": [], "fd": [], "ed": [], "sd": []}
+
+
+def bus_variant(rng, m):
+    """another bus with the frames of m: other order, signals reshuffled, some dropped, sizes and attributes drawn again"""
+    frames = []
+    for f in rng.sample(m["frames"], len(m["frames"])):
+        if len(m["frames"]) > 1 and rng.random() < 0.2:
+            continue
+        sigs = [[s[0], 0 if rng.random() < 0.25 else rng.randint(1, 16), rand_attrs(rng)] for s in rng.sample(f[2], len(f[2])) if rng.random() < 0.85]
+        frames.append([f[0], rand_attrs(rng), sigs])
+    pick = lambda: [a for a in ATTRS if rng.random() < 0.6]  # noqa
+    return {"frames": frames or [[m["frames"][0][0], [], []]], "ecus": [["E%d" % k, rand_attrs(rng)] for k in range(rng.randint(0, 2))],
+            "fd": pick(), "ed": pick(), "sd": pick()}
+
+
+def conv_cases(rng):
+    """one converter call (per prefix of the operations) on a file of 1..3 matrices; one case per matrix of the file"""
+    fmt = "kcd" if rng.random() < 0.15 else "mem"
+    r = rng.random()
+    first = gen_matrix_family(rng) if r < 0.3 else gen_matrix_near(rng) if r < 0.45 else gen_matrix(rng)
+    ms = [first]
+    for _ in range(rng.choice([0, 1, 1, 1, 2])):
+        ms.append(bus_variant(rng, first) if rng.random() < 0.55 else gen_matrix(rng))
+    rng.shuffle(ms)
+    if fmt == "kcd":
+        ms = [kcd_matrix(m) for m in ms]
+    names = [""] if len(ms) == 1 and rng.random() < 0.5 and fmt != "kcd" else ["BusA", "BusB", "BusC"][:len(ms)]   # (a KCD bus has a name)
+    ops = []
+    for _ in range(rng.randint(1, 3)):
+        r = rng.random()
+        src = rng.choice(ms)
+        new = gen_op_collide(rng, src) if r < 0.15 else [gen_op_near(rng, src, allow_obj=False)] if r < 0.4 else [gen_op(rng)]
+        for o in new:
+            once = o[0] in ("zero", "obsolete", "delSigAttrs", "delFrameAttrs")
+            if (fmt == "kcd" and once) or (once and any(p[0] == o[0] for p in ops)):
+                continue
+            ops.append(o)
+    if not ops:
+        ops = [["renameFrame", rng.choice(FRAME_PATS), "New"]]
+    ops = sorted(ops[:4], key=lambda o: STAGE[o[0]])   # (stable: the items of one option keep their order)
+    cli = rng.random() < 0.2
+    for i, m in enumerate(ms):
+        buses = [[n, None if j == i else x] for j, (n, x) in enumerate(zip(names, ms))]
+        yield {"op": "bulk", "c": {"m": m, "ops": ops, "conv": {"buses": buses, "i": i, "fmt": fmt, "cli": cli}}}
+
+
+def conv_options(ops):
+    """the converter options that stand for a sequence of operations (already in the converter's order)"""
+    o = {}
+    for op in ops:
+        k = op[0]
+        if k == "zero":
+            o["deleteZeroSignals"] = True
+        elif k == "obsolete":
+            o["deleteObsoleteDefines"] = True
+        elif k in ("renameSignal", "renameFrame"):
+            o.setdefault(k, []).append(op[1] + ":" + op[2])
+        elif k in ("delSignal", "delFrame"):
+            o.setdefault("deleteSignal" if k == "delSignal" else "deleteFrame", []).append(op[1])
+        else:
+            o["deleteSignalAttributes" if k == "delSigAttrs" else "deleteFrameAttributes"] = list(op[1])
+    return {k: v if v is True else ",".join(v) for k, v in o.items()}
+
+
+def run_converter(buses, ops, fmt, cli):
+    """[{bus name: matrix of the output file} for every prefix ops[:k+1]]"""
+    register_mem_format()
+    d = tempfile.mkdtemp(prefix="c17_")
+    try:
+        ext = MEM if fmt == "mem" else "kcd"
+        src = os.path.join(d, "in." + ext)
+        if fmt == "mem":
+            with open(src, "wb") as f:
+                f.write(json.dumps(buses).encode("utf-8"))
+        else:
+            canmatrix.formats.dumpp({bus: build(m) for bus, m in buses}, src)
+        res = []
+        for k in range(len(ops)):
+            dst = os.path.join(d, "out%d.%s" % (k, ext))
+            opts = conv_options(ops[:k + 1])
+            sink = io.StringIO()
+            with contextlib.redirect_stdout(sink), contextlib.redirect_stderr(sink):
+                if cli:
+                    from click.testing import CliRunner
+                    args = ["--" + o if v is True else "--%s=%s" % (o, v) for o, v in opts.items()]
+                    r = CliRunner().invoke(canmatrix.cli.convert.cli_convert, ["-s"] + args + [src, dst])
+                    if r.exception is not None and not isinstance(r.exception, SystemExit):
+                        raise r.exception
+                    if r.exit_code != 0:
+                        raise RuntimeError("canconvert: exit %s" % r.exit_code)
+                else:
+                    canmatrix.convert.convert(src, dst, **opts)
+            if fmt == "mem":
+                with open(dst, "rb") as f:
+                    res.append(dict(json.loads(f.read().decode("utf-8"))))
+            else:
+                res.append({bus: snapshot(db) for bus, db in canmatrix.formats.loadp(dst).items()})
+        return res
+    finally:
+        shutil.rmtree(d, ignore_errors=True)
+
+
+_LAST_CONV = [None, None]   # the matrices of one file are consecutive cases: one converter run serves them all
+
+
+def observe_conv(c):
+    conv = c["conv"]
+    buses = [[bus, c["m"] if m is None else m] for bus, m in conv["buses"]]
+    key = json.dumps([buses, c["ops"], conv["fmt"], conv["cli"]], sort_keys=True)
+    if _LAST_CONV[0] != key:
+        _LAST_CONV[:] = [key, run_converter(buses, c["ops"], conv["fmt"], conv["cli"])]
+    bus = buses[conv["i"]][0]
+    return {"states": [per[bus] for per in _LAST_CONV[1]]}
+
+
 def gen(rng, tier, shard, nshards):
     total = {"quick": 8000, "thorough": 120000}[tier] // nshards
     for _ in range(total):
@@ -221,12 +491,25 @@ def gen(rng, tier, shard, nshards):
     if shard == 1 % nshards:
         for c in sweep_near():
             yield c
+    # renames whose new names are present names (drawn after the streams above, which are unchanged)
+    for _ in range({"quick": 1600, "thorough": 24000}[tier] // nshards):
+        yield collide_case(rng)
+    if shard == 2 % nshards:
+        for c in sweep_collide():
+            yield c
+    # the operations as options of the converter, on files with one or several matrices
+    for _ in range({"quick": 640, "thorough": 9600}[tier] // nshards):
+        for c in conv_cases(rng):
+            yield c
 
 
 def neighbours(case, rng, shard, nshards):
     for _ in range(200 // nshards + 1):
         yield {"op": "bulk", "c": {"m": case["c"]["m"], "ops": [gen_op(rng) for _ in range(rng.randint(1, 2))]}}
         yield near_case(rng, case["c"]["m"])
+        ops = gen_op_collide(rng, case["c"]["m"])
+        if ops:
+            yield {"op": "bulk", "c": {"m": case["c"]["m"], "ops": ops}}
 
 
 def build(m):
@@ -289,6 +572,8 @@ def signal_object(db, name):
 
 
 def observe(case):
+    if case["c"].get("conv"):
+        return observe_conv(case["c"])
     db = build(case["c"]["m"])
     look = case["c"].get("look", [])
     states = []
@@ -333,12 +618,34 @@ def features(case, impl):
                 yield op[0] + ":name differs in letter case only from a present one"
             if op[-1] == "obj" and op[1] in have:
                 yield op[0] + ":addressed by object"
+        if op[0] in ("renameSignal", "renameFrame"):
+            groups = [[f[0] for f in prev["frames"]]] if op[0] == "renameFrame" else [[s[0] for s in f[2]] for f in prev["frames"]]
+            for names in groups:
+                hit = [(i, j) for i, n in enumerate(names) for j, o in enumerate(names) if i != j and new_name(op[1], op[2], n) == o and new_name(op[1], op[2], n) != n]
+                if hit:
+                    yield op[0] + ":new name of a matching object is the present name of another one"
+                    if any(new_name(op[1], op[2], names[j]) != names[j] for _, j in hit):
+                        yield op[0] + ":... which matches too (%s)" % ("stands later" if any(i < j and new_name(op[1], op[2], names[j]) != names[j] for i, j in hit) else "stands earlier")
+                    break
         prev = st
+    conv = case["c"].get("conv")
+    if conv:
+        yield "through the converter: %s, file format %s, matrix %d of %d" % ("canconvert" if conv["cli"] else "convert()", conv["fmt"], conv["i"] + 1, len(conv["buses"]))
+        yield "through the converter: %d operations" % len(case["c"]["ops"])
     if case["c"].get("look"):
         yield "lookups before every operation"
     zs = [sum(1 for s in f[2] if s[1] == 0) for f in case["c"]["m"]["frames"]]
     if any(z >= 2 for z in zs):
         yield "frame with >=2 zero-width signals"
+
+
+def new_name(old, new, name):
+    """the documented meaning of a rename (for the input statistics only; the judge is the Lean specification)"""
+    if old.endswith("*"):
+        return new + name[len(old) - 1:] if name.startswith(old[:-1]) else name
+    if old.startswith("*"):
+        return name[:len(name) - (len(old) - 1)] + new if name.endswith(old[1:]) else name
+    return new if name == old else name
 
 
 def nontrivial(case, impl):
@@ -364,3 +671,11 @@ def shrink_candidates(case):
         for j in range(len(f[2])):
             nf = [f[0], f[1], f[2][:j] + f[2][j + 1:]]
             yield {"op": "bulk", "c": dict(c, m=dict(m, frames=m["frames"][:i] + [nf] + m["frames"][i + 1:]))}
+    conv = c.get("conv")
+    if conv and len(conv["buses"]) > 1:
+        # the other matrices of the file, one at a time
+        for j in range(len(conv["buses"])):
+            if j != conv["i"]:
+                yield {"op": "bulk", "c": dict(c, conv=dict(conv, buses=conv["buses"][:j] + conv["buses"][j + 1:], i=conv["i"] - (1 if j < conv["i"] else 0)))}
+    if conv and conv["cli"]:
+        yield {"op": "bulk", "c": dict(c, conv=dict(conv, cli=False))}
